@@ -1,11 +1,11 @@
 (* C07 — lockedfile contents change atomically: Read/Write/Transform linearise; Transform
    rolls back.  Only the property theorems, each closed by [exact] of a lemma proved in
    LockedFile/TransformProofs.v and LockedFile/LinProofs.v, with Print Assumptions beneath. *)
-From Coq Require Import List NArith Sorted.
+From Coq Require Import List NArith Bool Arith Sorted.
 From Coq.Strings Require Import Byte.
 From GI Require Import Gen.LockedFileConsts LockedFile.LockedFile LockedFile.LockBasics
   LockedFile.LockProofs LockedFile.TransformProofs LockedFile.TransformCall
-  LockedFile.LinBasics LockedFile.LinProofs LockedFile.LinTheorems.
+  LockedFile.LinBasics LockedFile.LinProofs LockedFile.LinTheorems LockedFile.FaultProofs.
 Import ListNotations.
 
 (* ---- faults: every plan with at most one faulty operation (a failing write may have
@@ -57,6 +57,84 @@ Theorem C07_transform_call_fault_atomic : forall t old plan,
   end.
 Proof. exact transform_call_fault_atomic. Qed.
 Print Assumptions C07_transform_call_fault_atomic.
+
+(* a fault among the operations actually executed forces an error return *)
+Theorem C07_transform_fault_errs : forall t old plan fd k,
+  acc_writable (fd_acc fd) = true -> acc_readable (fd_acc fd) = true ->
+  k < body_steps (transform_body t) plan 0 old fd -> plan k <> FNone ->
+  result_of (run_body (transform_body t) plan 0 old fd) = ResErr.
+Proof. exact transform_fault_errs. Qed.
+Print Assumptions C07_transform_fault_errs.
+
+Theorem C07_write_fault_errs : forall d plan X fd k,
+  acc_writable (fd_acc fd) = true -> acc_readable (fd_acc fd) = true ->
+  k < body_steps (write_body d) plan 0 X fd -> plan k <> FNone ->
+  result_of (run_body (write_body d) plan 0 X fd) = ResErr.
+Proof. exact write_fault_errs. Qed.
+Print Assumptions C07_write_fault_errs.
+
+(* any write-locking call on an existing file, alone, operation j suffering plan j (any plan):
+   what it returns and leaves is its body run on the contents after the post-lock truncation;
+   a failed truncation leaves the old contents; the lock is always released *)
+Theorem C07_excl_call_faulty : forall fl b old plan,
+  io_only b -> lock_mode_of_flags fl = Some LEx ->
+  has_flag (strip fl openfile_strip_mask) sys_O_CREATE && has_flag (strip fl openfile_strip_mask) sys_O_EXCL = false ->
+  match run_seq 0 0 (client_prog fl b) plan 0 (os_with (Some old)) with
+  | (_, out, s') =>
+      ltab s' 0 = [] /\ fds s' 0 = None /\
+      if has_flag fl truncate_cond_mask then
+        match plan 2 with
+        | FNone => match run_body b plan 4 (start_contents fl old) (fresh_fd fl) with
+                   | (r, X', _) => out = Finished r /\ content_of (files s' 0) = X' end
+        | _ => out = Finished ResErr /\ content_of (files s' 0) = old
+        end
+      else match run_body b plan 3 old (fresh_fd fl) with
+           | (r, X', _) => out = Finished r /\ content_of (files s' 0) = X' end
+  end.
+Proof. exact excl_call_faulty. Qed.
+Print Assumptions C07_excl_call_faulty.
+
+(* Write promises no rollback: success = exactly the new content; failure = the old content
+   or a (possibly empty) prefix of the new content, never a mixture *)
+Theorem C07_write_call_faulty : forall d old plan,
+  match run_seq 0 0 (prog_of_call (CWrite d)) plan 0 (os_with (Some old)) with
+  | (_, out, s') =>
+      ltab s' 0 = [] /\ fds s' 0 = None /\
+      ((out = Finished ResOk /\ content_of (files s' 0) = d) \/
+       (out = Finished ResErr /\
+        (content_of (files s' 0) = old \/ exists m, content_of (files s' 0) = firstn m d)))
+  end.
+Proof. exact write_call_faulty. Qed.
+Print Assumptions C07_write_call_faulty.
+
+Theorem C07_create_write_call_faulty : forall d old plan,
+  match run_seq 0 0 (prog_of_call (CCreate (write_body d))) plan 0 (os_with (Some old)) with
+  | (_, out, s') =>
+      ltab s' 0 = [] /\ fds s' 0 = None /\
+      ((out = Finished ResOk /\ content_of (files s' 0) = d) \/
+       (out = Finished ResErr /\
+        (content_of (files s' 0) = old \/ exists m, content_of (files s' 0) = firstn m d)))
+  end.
+Proof. exact create_write_call_faulty. Qed.
+Print Assumptions C07_create_write_call_faulty.
+
+Theorem C07_edit_call_faulty : forall b old plan,
+  io_only b ->
+  match run_seq 0 0 (prog_of_call (CEdit b)) plan 0 (os_with (Some old)),
+        run_body b plan 3 old (fresh_fd edit_flags) with
+  | (_, out, s'), (r, X', _) =>
+      ltab s' 0 = [] /\ fds s' 0 = None /\ out = Finished r /\ content_of (files s' 0) = X'
+  end.
+Proof. exact edit_call_faulty. Qed.
+Print Assumptions C07_edit_call_faulty.
+
+Theorem C07_write_has_no_rollback :
+  exists old d plan, single_fault plan /\
+    match run_seq 0 0 (prog_of_call (CWrite d)) plan 0 (os_with (Some old)) with
+    | (_, out, s') => out = Finished ResErr /\ content_of (files s' 0) <> old
+    end.
+Proof. exact write_has_no_rollback. Qed.
+Print Assumptions C07_write_has_no_rollback.
 
 (* ---- schedules: every interleaving of any number of clients (LinProofs / LinTheorems) *)
 
@@ -144,3 +222,29 @@ Theorem C07_no_lost_update_contents : forall cfg f s i g,
   content_of (files (st_os s) i) = Nat.iter (writers cfg (lin s i)) g (content_of (f i)).
 Proof. exact no_lost_update_contents. Qed.
 Print Assumptions C07_no_lost_update_contents.
+
+(* each client contributes at most one entry to the log, a completed call exactly one *)
+Theorem C07_one_entry_per_client : forall cfg f s c i,
+  wf_cfg cfg -> reachable cfg f s ->
+  cnt c (lin s i) <= 1 /\ (i <> c_ino (cfg c) -> cnt c (lin s i) = 0).
+Proof. exact one_entry_per_client. Qed.
+Print Assumptions C07_one_entry_per_client.
+
+Theorem C07_completed_call_one_entry : forall cfg f s c x,
+  wf_cfg cfg -> reachable cfg f s -> returned s c x -> status s c = SClosing ->
+  cnt c (lin s (c_ino (cfg c))) = 1.
+Proof. exact completed_call_one_entry. Qed.
+Print Assumptions C07_completed_call_one_entry.
+
+Theorem C07_no_lost_update_exact : forall cfg f s i g cs,
+  wf_cfg cfg -> reachable cfg f s ->
+  (forall c, c_ino (cfg c) = i ->
+     c_call (cfg c) = CRead \/ c_call (cfg c) = CTransform (fun b => Some (g b))) ->
+  NoDup cs ->
+  (forall c, In c cs -> c_ino (cfg c) = i /\ c_call (cfg c) = CTransform (fun b => Some (g b)) /\
+                        returned s c ResOk) ->
+  (forall c, c_ino (cfg c) = i -> c_call (cfg c) = CTransform (fun b => Some (g b)) ->
+             ~ In c cs -> t_inv s c = None) ->
+  reg s i = Nat.iter (length cs) g (content_of (f i)).
+Proof. exact no_lost_update_exact. Qed.
+Print Assumptions C07_no_lost_update_exact.
